@@ -21,6 +21,7 @@ import Driver.OpsGlue
 import Driver.OpsServe
 import Driver.OpsLegal
 import Driver.OpsMCTSPolicy
+import Driver.OpsCmd
 namespace Driver
 
 def handlers : List Handler := [
@@ -46,6 +47,7 @@ def handlers : List Handler := [
   handleGlue,
   handleLegal,
   handleMCTSPolicy,
+  handleCmd,
 ]
 
 def step (st : St) (line : String) : St × String :=
